@@ -124,3 +124,35 @@ func TestRawChannelDeadlock(t *testing.T) {
 		t.Fatal("deadlock on a raw channel not reported")
 	}
 }
+
+// A goroutine the code under test starts by itself is adopted at its first
+// hooked operation: both orders of its write and the main thread's write are explored.
+func TestAdoptSpawnedGoroutine(t *testing.T) {
+	finals := map[int]int{}
+	st := mc.Explore(mc.Options{MaxDeviations: 2}, func(c *mc.Ctx) {
+		s := mc.NewSched(c)
+		s.AdoptUnknown = true
+		x := 0
+		done := make(chan struct{})
+		s.Go("main", func() {
+			go func() { // not registered with the scheduler
+				defer close(done)
+				s.Me().Point("child-write")
+				x = 1
+				s.Me().Point("child-after")
+			}()
+			s.Me().Point("main-write")
+			x = 2
+			s.Me().Point("main-after")
+			<-done
+		})
+		s.Run()
+		if s.Deadlock || len(s.Panics) > 0 {
+			t.Fatalf("deadlock=%v panics=%v", s.Deadlock, s.Panics)
+		}
+		finals[x]++
+	})
+	if finals[1] == 0 || finals[2] == 0 {
+		t.Fatalf("orders not both explored: %v (%d executions)", finals, st.Executions)
+	}
+}
